@@ -26,7 +26,7 @@ TEXTS = {
                design_ref="DESIGN.md section 5, C02",
                note="Trusted: Coq kernel, extraction, OCaml search, Go harness. Meta-assumption: atomicity of the table's Get/Compute (C15) and sequential consistency of sync/atomic. No expiry calculator in the theorem.",
                technique="Coq proof (simulation invariant over all schedules of an action-level model) + linearizability search on recorded concurrent histories with the extracted model as oracle"),
-    "C14": dict(text="Coq theorem C14_no_stranding_any_population (theories/DrainInv.v): for ANY number of writers and explicit CleanUp callers, every maintenance task they spawn and EVERY schedule of the small-step drain-status model "
+    "C14": dict(text="Coq theorem C14_no_stranding_any_population (theories/DrainInv.v): for ANY number of writers, readers (C14_no_stranding_with_readers) and explicit CleanUp callers, every maintenance task they spawn and EVERY schedule of the small-step drain-status model "
                      "(one step = one atomic access), a configuration in which nothing can move has all threads finished, the write buffer empty, the status idle and the lock free. Proof: an inductive invariant over counts of threads per "
                      "program counter (exactly one lock owner incl. the hand-off token; 'processing' while an owner is between status store and release; every 'processing' / 'required' status has a thread that will act on it; every buffered "
                      "event is covered by a pending drain, a required status or its producer), preserved by all 24 kinds of step. The exhaustive vm_compute explorations for 1 writer, 2 writers and 1 writer + 1 CleanUp caller are kept as a cross-check. "
@@ -34,7 +34,7 @@ TEXTS = {
                      "and the extracted model must show the same status, buffer size, lock and thread positions after every step (macro steps are proved to be small-step runs: DrainMacro.macro_step_reachable). "
                      "Drain engine: the real cache with the default executor under hook-injected perturbation and scripted windows; after the calls return only atomic loads are made and quiescence, bound, policy links and notification counts are checked.",
                design_ref="DESIGN.md section 0.2/0.3 and section 5, C14",
-               note="Trusted: Coq kernel (vm_compute only in the cross-check theorems), std++ gset/pmap; Go harness and hook points (tag verif). Not proved: that every schedule is finite (fair termination); readers, InvalidateAll and the 100-refusal caller-runs fallback are outside the model; the model is replayed against the code at hook-point granularity, finer interleavings only through the model.",
+               note="Trusted: Coq kernel (vm_compute only in the cross-check theorems), std++ gset/pmap; Go harness and hook points (tag verif). Not proved: that every schedule is finite (fair termination); InvalidateAll and the 100-refusal caller-runs fallback are outside the model; the model is replayed against the code at hook-point granularity, finer interleavings only through the model.",
                technique="Coq: inductive invariant of a small-step protocol model for unboundedly many threads (all schedules), cross-checked by kernel-computed exhaustive exploration of small populations + step-by-step correspondence replay of controlled schedules (sched) + perturbed stress with a no-further-calls quiescence oracle"),
     "C08": dict(text="Coq theorems over the single-flight protocol model (any number of threads and keys, every event order): loader intervals for one key never overlap unless a write/invalidation/eviction superseded the older call; "
                      "a caller that finds a registered call joins it; every waiter is released by its call's finish for every outcome including panic; no in-flight record survives. Tied to the code by executing scripted interleavings "
